@@ -22,15 +22,29 @@
      accepted, for every compression x cipher x mode configuration, every slicing of the input into
      writes, an arbitrary compressor and every block cipher that keeps 16-byte blocks; hence every
      archive made of any mix of these is well-formed and read back.
+   * writable is exact: every entry the strict decoder returns is writable (the converse of writer_wf),
+     so the decoded entries of a well-formed archive — all of them (copy, concat), a selection
+     (delete) — written again give a well-formed archive;
+   * transform_wf for chmod, chown, xattr, strip and delete with both strategies (keep-solid, unsolid):
+     the entry-level run (read with the tolerant reader, each entry's logical view through the
+     transformer of Transform.v, the answer put back with with_metadata / with_xattrs /
+     with_extra_chunks, written again) of a well-formed archive is well-formed, for arguments in range
+     (16-bit mode words, owner ids < 2^64 with UTF-8 names <= 255 bytes, an xattr that fits a chunk);
+     per entry the view of the rewritten entry is exactly the answer of Transform.v's transformer.
    Partial / outside:
-   * transform_wf (the editing commands keep an archive well-formed) has no theorem: the model of
-     the editing commands (Transform.v) works on the logical archive with opaque header/content tokens,
-     not on entries or bytes; the check runs the recogniser on the output of every editing command;
+   * transform_wf is `_partial`: acl set and migrate are not covered (their chunks carry owner names of
+     unbounded length); expanding a solid entry (s.entries(password): decrypt, decompress, parse) and
+     re-creating it (SolidEntryBuilder) are parameters `expand` / `rebuild` with the hypotheses that
+     expanded entries are writable and that rebuilding writable entries gives a writable solid entry
+     (C14_build_solid_writable is that statement for the pipeline model); append/update/concat of the
+     CLI are covered only through C14_rewrite_wf (re-writing decoded entries) and the check;
    * the hypotheses `writable` / `writable_spec` / `strict_ctx` / `small_pieces` are premises: that the
      CLI only produces such inputs (sanitised non-empty names, PHC strings from the password-hash crate,
-     writes below 2^32 bytes) is covered by running the recogniser on everything the CLI writes. *)
-From PNA Require Import Base Codec Chunk Archive Entry Cbc Pipeline Wf WfFacts ArchiveFacts EntryFacts CbcFacts WfWriterFacts WfAgreeFacts WfSplitFacts WfPipelineFacts.
-From PNA Require Split.
+     writes below 2^32 bytes, owner names <= 255 bytes) is covered by running the recogniser on
+     everything the CLI writes (two violations were found that way and repaired in /repo: the empty entry
+     name of `create -r . --keep-dir` and --uname/--gname longer than 255 bytes). *)
+From PNA Require Import Base Codec Chunk Archive Entry Cbc CliCodec Pipeline Wf WfFacts ArchiveFacts EntryFacts CbcFacts WfWriterFacts WfAgreeFacts WfSplitFacts WfPipelineFacts WfRewriteFacts WfTransformFacts.
+From PNA Require Split Transform.
 
 (* ---- writer_wf: the chunk-level writer ------------------------------------------------------------ *)
 Theorem C14_writer_wf :
@@ -345,3 +359,107 @@ Proof. exact toy_E_of_len. Qed.
 Check C14_pipeline_cipher_satisfiable :
   forall (a : encryption) (k b : bytes), len16 b -> len16 (toy_E_of a k b).
 Print Assumptions C14_pipeline_cipher_satisfiable.
+
+(* ---- writable is exact; re-writing decoded entries --------------------------------------------------- *)
+Theorem C14_writable_exact :
+  (forall es, Forall writable es -> strict_decode (write_raw_archive 0 (map ser_entry es)) = Ok (map normalize_entry es)) /\
+  (forall a es, strict_decode a = Ok es -> Forall writable es).
+Proof. exact writable_exact. Qed.
+Check C14_writable_exact :
+  (forall es, Forall writable es -> strict_decode (write_raw_archive 0 (map ser_entry es)) = Ok (map normalize_entry es)) /\
+  (forall a es, strict_decode a = Ok es -> Forall writable es).
+Print Assumptions C14_writable_exact.
+
+Theorem C14_decoded_writable :
+  forall (parts : list bytes) (es : list read_entry), strict_parts parts = SOk es -> Forall writable es.
+Proof. exact decoded_writable. Qed.
+Check C14_decoded_writable :
+  forall (parts : list bytes) (es : list read_entry), strict_parts parts = SOk es -> Forall writable es.
+Print Assumptions C14_decoded_writable.
+
+Theorem C14_rewrite_wf :
+  forall (a : bytes) (es : list read_entry) (keep : read_entry -> bool), strict_decode a = Ok es ->
+  wf_archive (write_raw_archive 0 (map ser_entry (filter keep es))) = true /\
+  strict_decode (write_raw_archive 0 (map ser_entry (filter keep es))) = Ok (map normalize_entry (filter keep es)).
+Proof. exact rewrite_wf. Qed.
+Check C14_rewrite_wf :
+  forall (a : bytes) (es : list read_entry) (keep : read_entry -> bool), strict_decode a = Ok es ->
+  wf_archive (write_raw_archive 0 (map ser_entry (filter keep es))) = true /\
+  strict_decode (write_raw_archive 0 (map ser_entry (filter keep es))) = Ok (map normalize_entry (filter keep es)).
+Print Assumptions C14_rewrite_wf.
+
+(* ---- transform_wf: chmod, chown, xattr, strip, delete ------------------------------------------------ *)
+Theorem C14_transform_wf_partial :
+  forall (hdr_tok content_tok : normal_entry -> bytes)
+         (expand : solid_entry -> res (list normal_entry)) (rebuild : solid_entry -> list normal_entry -> solid_entry),
+  (forall (s : solid_entry) (inner : list normal_entry), writable_solid s -> expand s = Ok inner -> Forall writable_normal inner) ->
+  (forall (s : solid_entry) (inner : list normal_entry), writable_solid s -> Forall writable_normal inner ->
+     writable_solid (rebuild s inner)) ->
+  forall (keep pw : bool) (c : Transform.cmd) (nfiles : N) (sel : bytes -> bool) (a a' : bytes),
+  cmd_ok c -> wf_archive a = true ->
+  run_edit hdr_tok content_tok expand rebuild keep pw c nfiles sel a = Ok a' -> wf_archive a' = true.
+Proof. exact transform_wf. Qed.
+Check C14_transform_wf_partial :
+  forall (hdr_tok content_tok : normal_entry -> bytes)
+         (expand : solid_entry -> res (list normal_entry)) (rebuild : solid_entry -> list normal_entry -> solid_entry),
+  (forall (s : solid_entry) (inner : list normal_entry), writable_solid s -> expand s = Ok inner -> Forall writable_normal inner) ->
+  (forall (s : solid_entry) (inner : list normal_entry), writable_solid s -> Forall writable_normal inner ->
+     writable_solid (rebuild s inner)) ->
+  forall (keep pw : bool) (c : Transform.cmd) (nfiles : N) (sel : bytes -> bool) (a a' : bytes),
+  cmd_ok c -> wf_archive a = true ->
+  run_edit hdr_tok content_tok expand rebuild keep pw c nfiles sel a = Ok a' -> wf_archive a' = true.
+Print Assumptions C14_transform_wf_partial.
+
+Theorem C14_edit_entry_view :
+  forall hdr_tok content_tok : normal_entry -> bytes,
+  (forall (e : normal_entry) (m : metadata) (xs : list xattr) (cs : list chunk),
+     hdr_tok (with_extra_chunks (with_xattrs (with_metadata e m) xs) cs) = hdr_tok e) ->
+  (forall (e : normal_entry) (m : metadata) (xs : list xattr) (cs : list chunk),
+     content_tok (with_extra_chunks (with_xattrs (with_metadata e m) xs) cs) = content_tok e) ->
+  forall (c : Transform.cmd) (sel : bytes -> bool) (e : normal_entry) (o : option normal_entry),
+  edit_entry hdr_tok content_tok c sel e = Ok o ->
+  Transform.cmd_transformer c sel (lview hdr_tok content_tok e) = Ok (option_map (lview hdr_tok content_tok) o).
+Proof. exact edit_entry_view. Qed.
+Check C14_edit_entry_view :
+  forall hdr_tok content_tok : normal_entry -> bytes,
+  (forall (e : normal_entry) (m : metadata) (xs : list xattr) (cs : list chunk),
+     hdr_tok (with_extra_chunks (with_xattrs (with_metadata e m) xs) cs) = hdr_tok e) ->
+  (forall (e : normal_entry) (m : metadata) (xs : list xattr) (cs : list chunk),
+     content_tok (with_extra_chunks (with_xattrs (with_metadata e m) xs) cs) = content_tok e) ->
+  forall (c : Transform.cmd) (sel : bytes -> bool) (e : normal_entry) (o : option normal_entry),
+  edit_entry hdr_tok content_tok c sel e = Ok o ->
+  Transform.cmd_transformer c sel (lview hdr_tok content_tok e) = Ok (option_map (lview hdr_tok content_tok) o).
+Print Assumptions C14_edit_entry_view.
+
+Theorem C14_edit_entry_writable :
+  forall (hdr_tok content_tok : normal_entry -> bytes) (c : Transform.cmd) (sel : bytes -> bool) (e e' : normal_entry),
+  cmd_ok c -> writable_normal e -> edit_entry hdr_tok content_tok c sel e = Ok (Some e') -> writable_normal e'.
+Proof. exact edit_entry_writable. Qed.
+Check C14_edit_entry_writable :
+  forall (hdr_tok content_tok : normal_entry -> bytes) (c : Transform.cmd) (sel : bytes -> bool) (e e' : normal_entry),
+  cmd_ok c -> writable_normal e -> edit_entry hdr_tok content_tok c sel e = Ok (Some e') -> writable_normal e'.
+Print Assumptions C14_edit_entry_writable.
+
+Theorem C14_transform_wf_satisfiable :
+  let a := write_raw_archive 0 (map ser_entry [RNormal ex_plain; RNormal ex_enc]) in
+  cmd_ok (Transform.CChmod (MPlus 1 1)) /\ wf_archive a = true /\
+  exists a', run_edit ex_hdr_tok ex_content_tok (fun _ => Ok []) (fun s _ => s) true false
+               (Transform.CChmod (MPlus 1 1)) 1 (fun _ => true) a = Ok a' /\
+             a' <> a /\ wf_archive a' = true.
+Proof. exact transform_wf_ex. Qed.
+Check C14_transform_wf_satisfiable :
+  let a := write_raw_archive 0 (map ser_entry [RNormal ex_plain; RNormal ex_enc]) in
+  cmd_ok (Transform.CChmod (MPlus 1 1)) /\ wf_archive a = true /\
+  exists a', run_edit ex_hdr_tok ex_content_tok (fun _ => Ok []) (fun s _ => s) true false
+               (Transform.CChmod (MPlus 1 1)) 1 (fun _ => true) a = Ok a' /\
+             a' <> a /\ wf_archive a' = true.
+Print Assumptions C14_transform_wf_satisfiable.
+
+Theorem C14_transform_tokens_satisfiable :
+  (forall e m xs cs, ex_hdr_tok (with_extra_chunks (with_xattrs (with_metadata e m) xs) cs) = ex_hdr_tok e) /\
+  (forall e m xs cs, ex_content_tok (with_extra_chunks (with_xattrs (with_metadata e m) xs) cs) = ex_content_tok e).
+Proof. exact ex_tokens. Qed.
+Check C14_transform_tokens_satisfiable :
+  (forall e m xs cs, ex_hdr_tok (with_extra_chunks (with_xattrs (with_metadata e m) xs) cs) = ex_hdr_tok e) /\
+  (forall e m xs cs, ex_content_tok (with_extra_chunks (with_xattrs (with_metadata e m) xs) cs) = ex_content_tok e).
+Print Assumptions C14_transform_tokens_satisfiable.
